@@ -218,6 +218,10 @@ def cases():
             "class RH { public int f = 1; public constructor() -> RH = default; public function sm() -> int { int a = 1; if (a == 1) { return takesInt(this.f + 1); } return 0; } }"),
            ("super-in-static-method", "class RD extends Base { public constructor() -> RD = default; public static function sm() -> int { return super.open(); } }",
             "class RD extends Base { public constructor() -> RD = default; public function sm() -> int { return super.open(); } }"),
+           ("super-field-in-static-method", "class RD extends Base { public constructor() -> RD = default; public static function sm() -> int { return super.pub; } }",
+            "class RD extends Base { public constructor() -> RD = default; public function sm() -> int { return super.pub; } }"),
+           ("super-field-write-in-static-method", "class RD extends Base { public constructor() -> RD = default; public static function sm() -> void { super.pub = 3; } }",
+            "class RD extends Base { public constructor() -> RD = default; public function sm() -> void { super.pub = 3; } }"),
            ("instance-field-in-static-method", "class RH { public int f = 1; public constructor() -> RH = default; public static function sm() -> int { return f; } }",
             "class RH { public static int f = 1; public constructor() -> RH = default; public static function sm() -> int { return f; } }"),
            ("static-field-initialiser-this", "class RH { public int f = 1; public static int g = this.f; public constructor() -> RH = default; }",
